@@ -351,6 +351,7 @@ func runC18Report(c *Ctx) {
 	}
 	// dangling reference: reported iff the lookup of a needs entry fails, at the referring node's position
 	var dangling ssa.CallInstruction
+	var danglingIf *ssa.If
 	var errfCalls []ssa.CallInstruction
 	for _, f := range scope {
 		errfCalls = append(errfCalls, findCalls(f, "(*RuleBase).Errorf")...)
@@ -368,7 +369,7 @@ func runC18Report(c *Ctx) {
 					}
 				}
 				if okKey {
-					dangling = call
+					dangling, danglingIf = call, ifi
 				}
 			}
 		}
@@ -392,6 +393,13 @@ func runC18Report(c *Ctx) {
 			c.bad("(*RuleJobNeeds).VisitWorkflowPost|dangling reference", dangling.Pos(), "not reported at the referring job")
 		default:
 			c.ok("(*RuleJobNeeds).VisitWorkflowPost|dangling reference", dangling.Pos(), "reported iff the needs entry is not a job, at the referring job")
+		}
+		// every needs entry of every job is looked up: the loops around the lookup are not left early (the report itself is
+		// outside the loop when it is followed by a break or a return)
+		if exits := earlyExitsAround(p, danglingIf.Block()); len(exits) == 0 {
+			c.ok("(*RuleJobNeeds).VisitWorkflowPost|every reference looked up", dangling.Pos(), "the loops over the jobs and over their needs entries run to their end")
+		} else {
+			c.bad("(*RuleJobNeeds).VisitWorkflowPost|every reference looked up", dangling.Pos(), strings.Join(exits, "; ")+": the needs entries behind it are neither reported when they dangle nor made edges of the graph")
 		}
 	}
 	// resolved neighbours: appended iff found, the looked-up node itself
